@@ -1623,6 +1623,8 @@ VARIANTS += [
          '\t\tif slices.Contains(registryScopes, artifactPath) {\n\t\t\tapplicableIndex = i', '\t\tif wildcardIndex != notFound {\n\t\t\tcontinue\n\t\t}\n\t\tif slices.Contains(registryScopes, artifactPath) {\n\t\t\tapplicableIndex = i'),
  _derive('benign-flags-inline', 'flags-inline-exact-flag-extra-conjunct', 'flagged(oci/selection-complete)',
          '\t\t} else if hasPath {', '\t\t} else if len(policyStatement.RegistryScopes) > 1 && hasPath {'),
+ _derive('benign-membership-std-index', 'std-index-exact-extra-conjunct', 'flagged(oci/selection-complete)',
+         '} else if slices.Index(policyStatement.RegistryScopes, artifactPath) != -1 {', '} else if len(policyStatement.RegistryScopes) > 1 && slices.Index(policyStatement.RegistryScopes, artifactPath) != -1 {'),
  # the same guard spelled differently, and tests that are implied: silent
  dict(name='benign-exact-test-first-match-wins', file=O, expect='silent',
       find=_EX, replace='} else if applicablePolicy == nil && slices.Contains(policyStatement.RegistryScopes, artifactPath) {'),
